@@ -6,6 +6,7 @@ verus! {
 global size_of usize == 8;
 
 //@@ include common/trienode.vrs
+//@@ include common/triewf.vrs
 //@@ const toktrie/src/toktree.rs NO_NODE
 //@@ struct toktrie/src/toktree.rs BuilderNode
 //@@ struct toktrie/src/toktree.rs TrieBuilder fields=nodes
@@ -218,6 +219,299 @@ impl TrieBuilder {
         assert(data@ =~= want);
     }
 //@ end
+}
+
+
+// ================================================================ enc(root) satisfies TrieWf
+// (removes "TrieBuilder::serialize establishes TrieWf" from the assumptions of unit walk_v; what remains assumed is that
+//  TrieBuilder::insert builds a well-founded arena whose token ids are below the vocabulary size)
+
+pub open spec fn encd(a: Arena, rank: Seq<nat>, i: int, dep: nat) -> Seq<nat>
+    decreases rank[i], 1nat
+    when arena_wf(a, rank) && 0 <= i < a.len()
+    via encd_dec
+{
+    seq![dep] + encd_list(a, rank, a[i].first_child, dep + 1)
+}
+pub open spec fn encd_list(a: Arena, rank: Seq<nat>, c: u32, dep: nat) -> Seq<nat>
+    decreases (if c == NO_NODE { 0nat } else { rank[c as int] + 1 }), 0nat
+    when arena_wf(a, rank) && (c == NO_NODE || c < a.len())
+    via encd_list_dec
+{
+    if c == NO_NODE { Seq::empty() } else {
+        encd(a, rank, c as int, dep) + encd_list(a, rank, a[c as int].next_sibling, dep)
+    }
+}
+#[via_fn]
+proof fn encd_dec(a: Arena, rank: Seq<nat>, i: int, dep: nat) {
+    assert(link_ok(a, rank, i));
+}
+#[via_fn]
+proof fn encd_list_dec(a: Arena, rank: Seq<nat>, c: u32, dep: nat) {
+    if c != NO_NODE { assert(link_ok(a, rank, c as int)); }
+}
+
+pub open spec fn b_size(b: Seq<TrieNode>, j: int) -> bool { nsize(b[j]) >= 1 && j + nsize(b[j]) <= b.len() }
+pub open spec fn b_step(d: Seq<nat>, j: int) -> bool { d[j] <= d[j - 1] + 1 }
+pub open spec fn b_deeper(b: Seq<TrieNode>, d: Seq<nat>, j: int, k: int) -> bool { (j < k < j + nsize(b[j])) ==> d[k] > d[j] }
+pub open spec fn b_next(b: Seq<TrieNode>, d: Seq<nat>, j: int) -> bool { (j + nsize(b[j]) < b.len()) ==> d[j + nsize(b[j])] <= d[j] }
+pub open spec fn b_np(b: Seq<TrieNode>, d: Seq<nat>, x: nat, j: int) -> bool {
+    nparents(b[j]) == d[j] - (if j + nsize(b[j]) < b.len() { d[j + nsize(b[j])] } else { x }) + 1
+}
+pub open spec fn b_ge(d: Seq<nat>, dep: nat, j: int) -> bool { d[j] >= dep }
+pub open spec fn b_gt(d: Seq<nat>, dep: nat, j: int) -> bool { d[j] > dep }
+
+/// clauses shared by a block (one subtree) and a list of sibling blocks; x = depth of whatever follows
+pub open spec fn inner(b: Seq<TrieNode>, d: Seq<nat>, x: nat, dep: nat, vocab: u32) -> bool {
+    &&& b.len() == d.len()
+    &&& forall|j: int| 0 <= j < b.len() ==> #[trigger] b_size(b, j)
+    &&& forall|j: int| 1 <= j < b.len() ==> #[trigger] b_step(d, j)
+    &&& forall|j: int, k: int| 0 <= j < b.len() && 0 <= k < b.len() ==> #[trigger] b_deeper(b, d, j, k)
+    &&& forall|j: int| 0 <= j < b.len() ==> #[trigger] b_next(b, d, j)
+    &&& forall|j: int| 0 <= j < b.len() ==> #[trigger] b_np(b, d, x, j)
+    &&& forall|j: int| 0 <= j < b.len() ==> #[trigger] tok_ok(b, j, vocab)
+    &&& forall|j: int| 0 <= j < b.len() ==> #[trigger] b_ge(d, dep, j)
+}
+pub open spec fn lst(b: Seq<TrieNode>, d: Seq<nat>, dep: nat, x: nat, vocab: u32) -> bool {
+    inner(b, d, x, dep, vocab) && (b.len() > 0 ==> d[0] == dep)
+}
+pub open spec fn blk(b: Seq<TrieNode>, d: Seq<nat>, dep: nat, x: nat, vocab: u32) -> bool {
+    &&& inner(b, d, x, dep, vocab)
+    &&& b.len() >= 1
+    &&& d[0] == dep
+    &&& nsize(b[0]) == b.len()
+    &&& forall|k: int| 1 <= k < b.len() ==> #[trigger] b_gt(d, dep, k)
+}
+
+pub proof fn lemma_mk_node(byte: u8, tok: u32, np: nat, size: nat)
+    requires 1 <= np <= 1024, size < 0x40_0000, tok <= 0xff_ffff,
+    ensures nbyte(mk_node(byte, tok, np, size)) == byte, ntok(mk_node(byte, tok, np, size)) == tok,
+        nparents(mk_node(byte, tok, np, size)) == np, nsize(mk_node(byte, tok, np, size)) == size,
+{
+    let x: u32 = (np - 1) as u32;
+    let sz: u32 = size as u32;
+    assert((((tok << 8u32) | (byte as u32)) & 0xffu32) as u8 == byte) by (bit_vector) requires tok <= 0xff_ffffu32;
+    assert(((tok << 8u32) | (byte as u32)) >> 8u32 == tok) by (bit_vector) requires tok <= 0xff_ffffu32;
+    assert(((x | (sz << 10u32)) >> 10u32) == sz && ((x | (sz << 10u32)) & 0x3ffu32) == x) by (bit_vector) requires x < 1024u32, sz < 0x40_0000u32;
+}
+
+/// a non-last sibling block followed by the rest of the sibling list
+pub proof fn lemma_cons(b1: Seq<TrieNode>, d1: Seq<nat>, l2: Seq<TrieNode>, dl2: Seq<nat>, dep: nat, x: nat, vocab: u32)
+    requires blk(b1, d1, dep, dep, vocab), lst(l2, dl2, dep, x, vocab), l2.len() > 0, x <= dep,
+    ensures lst(b1 + l2, d1 + dl2, dep, x, vocab),
+{
+    let b = b1 + l2;
+    let d = d1 + dl2;
+    let n1 = b1.len() as int;
+    assert forall|j: int| 0 <= j < b.len() implies #[trigger] b_size(b, j) by {
+        if j < n1 { assert(b_size(b1, j)); } else { assert(b_size(l2, j - n1)); }
+    }
+    assert forall|j: int| 1 <= j < b.len() implies #[trigger] b_step(d, j) by {
+        if j < n1 { assert(b_step(d1, j)); }
+        else if j == n1 { assert(b_ge(d1, dep, n1 - 1)); }
+        else { assert(b_step(dl2, j - n1)); }
+    }
+    assert forall|j: int, k: int| 0 <= j < b.len() && 0 <= k < b.len() implies #[trigger] b_deeper(b, d, j, k) by {
+        if j < n1 {
+            assert(b_size(b1, j));
+            if k < n1 { assert(b_deeper(b1, d1, j, k)); }
+        } else if k >= n1 {
+            assert(b_deeper(l2, dl2, j - n1, k - n1));
+        }
+    }
+    assert forall|j: int| 0 <= j < b.len() implies #[trigger] b_next(b, d, j) by {
+        if j < n1 {
+            assert(b_size(b1, j)); assert(b_next(b1, d1, j)); assert(b_ge(d1, dep, j));
+        } else {
+            assert(b_size(l2, j - n1)); assert(b_next(l2, dl2, j - n1));
+        }
+    }
+    assert forall|j: int| 0 <= j < b.len() implies #[trigger] b_np(b, d, x, j) by {
+        if j < n1 {
+            assert(b_size(b1, j)); assert(b_np(b1, d1, dep, j));
+        } else {
+            assert(b_size(l2, j - n1)); assert(b_np(l2, dl2, x, j - n1));
+        }
+    }
+    assert forall|j: int| 0 <= j < b.len() implies #[trigger] tok_ok(b, j, vocab) by {
+        if j < n1 { assert(tok_ok(b1, j, vocab)); } else { assert(tok_ok(l2, j - n1, vocab)); }
+    }
+    assert forall|j: int| 0 <= j < b.len() implies #[trigger] b_ge(d, dep, j) by {
+        if j < n1 { assert(b_ge(d1, dep, j)); } else { assert(b_ge(dl2, dep, j - n1)); }
+    }
+}
+
+/// a node followed by the list of its children blocks is a block
+pub proof fn lemma_node(n: TrieNode, l: Seq<TrieNode>, dl: Seq<nat>, dep: nat, x: nat, vocab: u32)
+    requires lst(l, dl, dep + 1, x, vocab), 1 <= x <= dep,
+        nsize(n) == 1 + l.len(), nparents(n) == dep - x + 1, ntok(n) == NO_TOKEN || ntok(n) < vocab,
+    ensures blk(seq![n] + l, seq![dep] + dl, dep, x, vocab),
+{
+    let b = seq![n] + l;
+    let d = seq![dep] + dl;
+    assert forall|j: int| 0 <= j < b.len() implies #[trigger] b_size(b, j) by {
+        if j >= 1 { assert(b_size(l, j - 1)); }
+    }
+    assert forall|j: int| 1 <= j < b.len() implies #[trigger] b_step(d, j) by {
+        if j >= 2 { assert(b_step(dl, j - 1)); }
+    }
+    assert forall|j: int, k: int| 0 <= j < b.len() && 0 <= k < b.len() implies #[trigger] b_deeper(b, d, j, k) by {
+        if j == 0 { if k >= 1 { assert(b_ge(dl, dep + 1, k - 1)); } }
+        else if k >= 1 { assert(b_deeper(l, dl, j - 1, k - 1)); }
+    }
+    assert forall|j: int| 0 <= j < b.len() implies #[trigger] b_next(b, d, j) by {
+        if j >= 1 { assert(b_size(l, j - 1)); assert(b_next(l, dl, j - 1)); }
+    }
+    assert forall|j: int| 0 <= j < b.len() implies #[trigger] b_np(b, d, x, j) by {
+        if j >= 1 { assert(b_size(l, j - 1)); assert(b_np(l, dl, x, j - 1)); }
+    }
+    assert forall|j: int| 0 <= j < b.len() implies #[trigger] tok_ok(b, j, vocab) by {
+        if j >= 1 { assert(tok_ok(l, j - 1, vocab)); }
+    }
+    assert forall|j: int| 0 <= j < b.len() implies #[trigger] b_ge(d, dep, j) by {
+        if j >= 1 { assert(b_ge(dl, dep + 1, j - 1)); }
+    }
+    assert forall|k: int| 1 <= k < b.len() implies #[trigger] b_gt(d, dep, k) by {
+        assert(b_ge(dl, dep + 1, k - 1));
+    }
+}
+
+pub open spec fn arena_toks_ok(a: Arena, vocab: u32) -> bool {
+    forall|i: int| 0 <= i < a.len() ==> ((#[trigger] a[i]).token_id == NO_TOKEN || a[i].token_id < vocab)
+}
+
+/// block of node i at depth dep with exit depth x (called with np = dep - x + 1 >= 1)
+pub proof fn lemma_enc_blk(a: Arena, rank: Seq<nat>, i: int, dep: nat, x: nat, vocab: u32)
+    requires arena_wf(a, rank), 0 <= i < a.len(), 1 <= x <= dep, arena_toks_ok(a, vocab),
+        fits(a, rank, i, (dep - x + 1) as nat),
+    ensures blk(enc(a, rank, i, (dep - x + 1) as nat), encd(a, rank, i, dep), dep, x, vocab),
+    decreases rank[i], 1nat
+{
+    let np: nat = (dep - x + 1) as nat;
+    assert(link_ok(a, rank, i));
+    let kids = enc_list(a, rank, a[i].first_child, np);
+    let dkids = encd_list(a, rank, a[i].first_child, dep + 1);
+    lemma_enc_lst(a, rank, a[i].first_child, dep + 1, x, vocab);
+    let n = mk_node(a[i].byte, a[i].token_id, np, 1 + kids.len());
+    assert(enc(a, rank, i, np) == seq![n] + kids);
+    assert(enc(a, rank, i, np).len() == 1 + kids.len());
+    lemma_mk_node(a[i].byte, a[i].token_id, np, 1 + kids.len());
+    lemma_node(n, kids, dkids, dep, x, vocab);
+}
+
+/// sibling list starting at c, at depth dep, whose parent was called with np = dep - x
+pub proof fn lemma_enc_lst(a: Arena, rank: Seq<nat>, c: u32, dep: nat, x: nat, vocab: u32)
+    requires arena_wf(a, rank), c == NO_NODE || c < a.len(), 1 <= x <= dep, arena_toks_ok(a, vocab),
+        fits_list(a, rank, c, (dep - x) as nat),
+    ensures lst(enc_list(a, rank, c, (dep - x) as nat), encd_list(a, rank, c, dep), dep, x, vocab),
+    decreases (if c == NO_NODE { 0nat } else { rank[c as int] + 1 }), 0nat
+{
+    let np: nat = (dep - x) as nat;
+    if c != NO_NODE {
+        assert(link_ok(a, rank, c as int));
+        let nx = a[c as int].next_sibling;
+        if nx == NO_NODE {
+            // last child: exit depth x, called with np + 1 = dep - x + 1
+            lemma_enc_blk(a, rank, c as int, dep, x, vocab);
+            assert(enc_list(a, rank, nx, np) =~= Seq::<TrieNode>::empty());
+            assert(encd_list(a, rank, nx, dep) =~= Seq::<nat>::empty());
+            assert(enc_list(a, rank, c, np) =~= enc(a, rank, c as int, np + 1));
+            assert(encd_list(a, rank, c, dep) =~= encd(a, rank, c as int, dep));
+        } else {
+            // a sibling follows at the same depth: exit depth dep, called with 1 = dep - dep + 1
+            lemma_enc_blk(a, rank, c as int, dep, dep, vocab);
+            lemma_enc_lst(a, rank, nx, dep, x, vocab);
+            assert(link_ok(a, rank, nx as int));
+            let rest = enc_list(a, rank, nx, np);
+            assert(rest.len() > 0) by {
+                let npn: nat = if a[nx as int].next_sibling == NO_NODE { np + 1 } else { 1 };
+                assert(enc(a, rank, nx as int, npn).len() >= 1);
+            }
+            lemma_cons(enc(a, rank, c as int, 1), encd(a, rank, c as int, dep), rest, encd_list(a, rank, nx, dep), dep, x, vocab);
+        }
+    }
+}
+
+/// the whole array: root node + the list of its children (root is serialized with num_parents = 0)
+pub proof fn lemma_root_trie_wf(a: Arena, rank: Seq<nat>, vocab: u32)
+    requires arena_wf(a, rank), a.len() >= 1, arena_toks_ok(a, vocab), fits(a, rank, 0, 0),
+    ensures trie_wf(enc(a, rank, 0, 0), encd(a, rank, 0, 0), vocab),
+{
+    assert(link_ok(a, rank, 0));
+    let l = enc_list(a, rank, a[0].first_child, 0);
+    let dl = encd_list(a, rank, a[0].first_child, 1);
+    lemma_enc_lst(a, rank, a[0].first_child, 1, 1, vocab);
+    let n0 = mk_node(a[0].byte, a[0].token_id, 1, 1 + l.len());
+    let nodes = enc(a, rank, 0, 0);
+    let d = encd(a, rank, 0, 0);
+    assert(nodes == seq![n0] + l);
+    assert(d == seq![0nat] + dl);
+    lemma_mk_node(a[0].byte, a[0].token_id, 1, 1 + l.len());
+    assert forall|j: int| 1 <= j < nodes.len() implies #[trigger] step_ok(d, j) by {
+        assert(b_ge(dl, 1, j - 1));
+        if j >= 2 { assert(b_step(dl, j - 1)); }
+    }
+    assert forall|j: int| 0 <= j < nodes.len() implies #[trigger] size_ok(nodes, j) by {
+        if j >= 1 { assert(b_size(l, j - 1)); }
+    }
+    assert forall|j: int, k: int| 0 <= j < nodes.len() && 0 <= k < nodes.len() implies #[trigger] deeper(nodes, d, j, k) by {
+        if j == 0 { if k >= 1 { assert(b_ge(dl, 1, k - 1)); } }
+        else if k >= 1 { assert(b_deeper(l, dl, j - 1, k - 1)); }
+    }
+    assert forall|j: int| 0 <= j < nodes.len() implies #[trigger] next_ok(nodes, d, j) by {
+        if j >= 1 { assert(b_size(l, j - 1)); assert(b_next(l, dl, j - 1)); }
+    }
+    assert forall|j: int| 1 <= j < nodes.len() implies #[trigger] np_ok(nodes, d, j) by {
+        assert(b_size(l, j - 1)); assert(b_np(l, dl, 1, j - 1));
+    }
+    assert forall|j: int| 0 <= j < nodes.len() implies #[trigger] tok_ok(nodes, j, vocab) by {
+        if j >= 1 { assert(tok_ok(l, j - 1, vocab)); }
+    }
+}
+
+/// what TokTrie::from / filter obtain: `trie.serialize(&mut nodes, 0)` on an empty Vec yields a TrieWf array
+pub proof fn lemma_from_output_wf(a: Arena, vocab: u32, out: Seq<TrieNode>)
+    requires wf_arena(a), a.len() >= 1, arena_toks_ok(a, vocab), fits(a, rk(a), 0, 0),
+        out == Seq::<TrieNode>::empty() + enc(a, rk(a), 0, 0),
+    ensures exists|d: Seq<nat>| trie_wf(out, d, vocab),
+{
+    lemma_root_trie_wf(a, rk(a), vocab);
+    assert(out =~= enc(a, rk(a), 0, 0));
+    assert(trie_wf(out, encd(a, rk(a), 0, 0), vocab));
+}
+
+// vacuity guards (must be REJECTED)
+pub proof fn must_fail_root_pre_contradictory(a: Arena, rank: Seq<nat>, vocab: u32)
+    requires arena_wf(a, rank), a.len() >= 1, arena_toks_ok(a, vocab), fits(a, rank, 0, 0),
+    ensures false,
+{
+}
+pub proof fn must_fail_wrong_root_parents(a: Arena, rank: Seq<nat>, vocab: u32)
+    requires arena_wf(a, rank), a.len() >= 2, a[0].first_child == 1, a[1].next_sibling == NO_NODE, arena_toks_ok(a, vocab), fits(a, rank, 0, 3),
+    ensures trie_wf(enc(a, rank, 0, 3), encd(a, rank, 0, 0), vocab),
+{
+    lemma_root_trie_wf(a, rank, vocab);
+}
+
+/// witness: the preconditions are satisfiable (a root with one leaf child)
+pub proof fn witness_two_node_arena()
+{
+    let root = BuilderNode { token_id: 0xff_ffff, byte: 0xff, first_child: 1, next_sibling: NO_NODE, last_child: 1 };
+    let leaf = BuilderNode { token_id: 0, byte: 97, first_child: NO_NODE, next_sibling: NO_NODE, last_child: NO_NODE };
+    let a: Arena = seq![root, leaf];
+    let rank: Seq<nat> = seq![1nat, 0nat];
+    assert(link_ok(a, rank, 0) && link_ok(a, rank, 1));
+    assert(arena_wf(a, rank));
+    assert(NO_TOKEN == 0xff_ffffu32);
+    assert(arena_toks_ok(a, 1)) by {
+        assert forall|i: int| 0 <= i < a.len() implies ((#[trigger] a[i]).token_id == NO_TOKEN || a[i].token_id < 1) by { }
+    }
+    reveal_with_fuel(enc, 3); reveal_with_fuel(enc_list, 3); reveal_with_fuel(fits, 3); reveal_with_fuel(fits_list, 3);
+    assert(enc_list(a, rank, NO_NODE, 1) =~= Seq::<TrieNode>::empty());
+    assert(enc(a, rank, 1, 1).len() == 1);
+    assert(enc_list(a, rank, 1, 0) =~= enc(a, rank, 1, 1));
+    assert(enc(a, rank, 0, 0).len() == 2);
+    assert(fits(a, rank, 0, 0));
 }
 
 } // verus!
